@@ -227,7 +227,7 @@ func runC11(c *Ctx) {
 				cc := callCommon(x)
 				switch f.Name() {
 				case "Errors":
-					if fl, b := loadedField(cc.Args[0]); (fl == rowEC && b == in.rowV) || cc.Args[0] == in.rowV {
+					if fl, b := loadedField(cc.Args[0]); (fl == rowEC && b == in.rowV) || capturedLoad(cc.Args[0]) == in.rowV {
 						read = true
 						errsCall = x.(ssa.Value)
 						ld, isLd := cc.Args[0].(ssa.Instruction)
@@ -454,6 +454,43 @@ func runC11(c *Ctx) {
 				}
 			}
 			return true, "a parameter; every caller passes an acceptable receiver"
+		}
+		// the receiver is asked of a function handed in by the caller (func() ErrorReceiver): every caller passes a
+		// closure, and what each of those closures returns is judged where the closure was made
+		if call, isCall := inner.(*ssa.Call); isCall && call.Call.StaticCallee() == nil && !call.Call.IsInvoke() {
+			if par, isPar := call.Call.Value.(*ssa.Parameter); isPar {
+				idx := -1
+				for i, q := range fn.Params {
+					if q == par {
+						idx = i
+					}
+				}
+				sitesOf := ix.callSitesOf(fn)
+				if idx >= 0 && len(sitesOf) > 0 {
+					for _, s := range sitesOf {
+						mc, isMC := s.Call.Common().Args[idx].(*ssa.MakeClosure)
+						if !isMC {
+							return false, "caller " + FuncName(s.Fn) + " passes something other than a closure as the receiver function"
+						}
+						g, _ := mc.Fn.(*ssa.Function)
+						if g == nil || len(returnsOf(g)) == 0 {
+							return false, "receiver function without a body"
+						}
+						for _, ret := range returnsOf(g) {
+							rv := unwrap(results(ret)[0], true)
+							f2, b2 := loadedField(rv)
+							if f2 == nil {
+								return false, "caller " + FuncName(s.Fn) + ": the receiver function returns " + rv.String()
+							}
+							ok, why, handled := acceptField(s.Fn, f2, b2, s.Call.(ssa.Instruction), depth+1)
+							if !handled || !ok {
+								return false, "caller " + FuncName(s.Fn) + ": " + why
+							}
+						}
+					}
+					return true, "a function handed in by the caller; every caller's function returns an acceptable receiver"
+				}
+			}
 		}
 		return false, "unrecognised error receiver " + inner.String()
 	}
@@ -798,10 +835,10 @@ func divertHelperCall(c *Ctx, fn *ssa.Function, rowV, table ssa.Value, rowEC, ta
 		}
 		ri, ti := -1, -1
 		for k, a := range args {
-			if a == rowV {
+			if capturedLoad(a) == rowV {
 				ri = k
 			}
-			if a == table {
+			if capturedLoad(a) == table {
 				ti = k
 			}
 		}
